@@ -16,3 +16,5 @@ func errWrap(err error) error { return fmt.Errorf("wrapped: %w", err) }
 func snippetPkgExpose(name, pkgPath, expose string) snippet.TArg {
 	return snippet.Arg(name, snippet.PkgExpose(pkgPath, expose))
 }
+
+func snippetBlock(text string) snippet.Snippet { return snippet.Block(text) }
